@@ -9,7 +9,7 @@ import z3
 
 from . import ops
 from .ops import Arith, truth, b_and, b_or, b_not, equal, merge, ite
-from .values import (EngineError, NONE, ListV, SeqV, OptV, ObjV, MapV, SetV, RangeV, ExcV, StrV, LitSet, EnumV,
+from .values import (EngineError, NONE, ListV, SeqV, OptV, ObjV, MapV, SetV, RangeV, ExcV, StrV, LitSet, EnumV, ImgSetV,
                      TInt, TBool, TReal, TBV, TTuple, TList, TSeq, TOpt, TRec, TMap, TSet, TNone, TConst,
                      is_z3, is_scalar, is_bv, is_real, to_int_term, to_bool_term, to_real_term, fresh, fresh_name,
                      shape_of, value_facts, key_term, key_sort, shape_leaves, flatten_value, build_from_leaves,
@@ -841,6 +841,21 @@ class Engine(object):
             if ext is not None:
                 return [(st, ExternalMethod(ext, base, attr))]
             raise EngineError("object of class %s has no modelled attribute %s" % (base.cls, attr))
+        if isinstance(base, ExcV):
+            # attributes of a repository exception = the arguments of its __init__, by name
+            cr = self.class_by_name(base.cls)
+            if cr is not None:
+                for n in cr.node.body:
+                    if isinstance(n, ast.FunctionDef) and n.name == "__init__":
+                        pn = [p.arg for p in n.args.args][1:]
+                        dflt = dict(zip(pn[len(pn) - len(n.args.defaults):], n.args.defaults))
+                        if attr in pn:
+                            i = pn.index(attr)
+                            if i < len(base.args):
+                                return [(st, base.args[i])]
+                            if attr in dflt:
+                                return self.ev(dflt[attr], State({}, st.pc))
+            raise EngineError("attribute %s of exception %s" % (attr, base.cls))
         if isinstance(base, SuperProxy):
             m = self.find_method_after(base.obj.cls, base.after, attr)
             if m is None:
@@ -1330,9 +1345,54 @@ class Engine(object):
         if (isinstance(node.func, ast.Name) and node.func.id in ("set", "frozenset") and len(node.args) == 1
                 and isinstance(node.args[0], (ast.GeneratorExp, ast.ListComp)) and not node.keywords
                 and node.func.id not in st.env):
+            g0 = node.args[0].generators[0] if len(node.args[0].generators) == 1 else None
+            if g0 is not None and not g0.ifs:
+                ri = self.ev(g0.iter, st)
+                if len(ri) == 1 and isinstance(ri[0][1], SeqV) and self.static_items(ri[0][1]) is None:
+                    sq, s1, eltn, tgt = ri[0][1], ri[0][0], node.args[0].elt, g0.target
+
+                    def fn(j, sq=sq, s1=s1, eltn=eltn, tgt=tgt):
+                        el, _ = seqs.seq_get(sq, j)
+                        rb = self.ev(eltn, self.assign(tgt, el, s1))
+                        if len(rb) != 1 or isinstance(rb[0][1], Raised) or not is_scalar(rb[0][1]):
+                            raise EngineError("set(...) over a symbolic sequence: element expression must be a pure scalar")
+                        return rb[0][1]
+                    fn(z3.Int(fresh_name("probe")))      # fail early if not supported
+                    return [(s1, ImgSetV(sq, fn))]
             r = self.comprehension(node.args[0], st, "condset")
             if len(r) == 1 and isinstance(r[0][1], LitSet):
                 return r
+        if (isinstance(node.func, ast.Name) and node.func.id == "sum" and len(node.args) == 1
+                and isinstance(node.args[0], ast.GeneratorExp) and len(node.args[0].generators) == 1
+                and node.args[0].generators[0].ifs and node.func.id not in st.env):
+            # sum(e for x in <static iterable> if c): each term is taken under its condition (no forking)
+            g = node.args[0].generators[0]
+            r = self.ev(g.iter, st)
+            items = self.static_items(r[0][1]) if len(r) == 1 and not isinstance(r[0][1], Raised) else None
+            if items is not None:
+                s1 = r[0][0]
+                total, ok = 0, True
+                ar = Arith(lambda *a: None)
+                for it in items:
+                    s2 = self.assign(g.target, it, s1)
+                    c = True
+                    for cnode in g.ifs:
+                        rc = self.ev(cnode, s2)
+                        if len(rc) != 1 or isinstance(rc[0][1], Raised):
+                            ok = False
+                            break
+                        c = b_and(c, rc[0][1])
+                    re_ = self.ev(node.args[0].elt, s2) if ok else []
+                    if len(re_) != 1 or isinstance(re_[0][1], Raised) or not is_scalar(re_[0][1]):
+                        ok = False
+                        break
+                    t = truth(c)
+                    if t is False:
+                        continue
+                    term = re_[0][1] if t is True else ite(t, re_[0][1], 0)
+                    total = ar.binop('+', total, term)
+                if ok:
+                    return [(s1, total)]
         if (isinstance(node.func, ast.Name) and node.func.id in ("any", "all") and len(node.args) == 1
                 and isinstance(node.args[0], ast.GeneratorExp) and len(node.args[0].generators) == 1
                 and node.func.id not in st.env):
@@ -1630,9 +1690,15 @@ class Engine(object):
         leaves = []
         for a in args:
             if isinstance(a, SeqV):
-                raise EngineError("opaque spec function applied to a whole sequence")
+                # a whole sequence as argument: its arrays, length and base
+                leaves.extend(a.arrs)
+                leaves.append(to_int_term(a.length))
+                leaves.append(to_int_term(a.base) if not isinstance(a.base, int) else z3.IntVal(a.base))
+                continue
             leaves_of(a, leaves)
-            if isinstance(a, (bool, int)) and not is_z3(a):
+            if isinstance(a, bool):
+                leaves.append(z3.BoolVal(a))
+            elif isinstance(a, int):
                 leaves.append(z3.IntVal(int(a)))
         self._revealing = True
         try:
@@ -1709,9 +1775,33 @@ class Engine(object):
         if m is None:
             raise EngineError("statement %s not in the subset (line %d)" % (type(node).__name__, node.lineno))
         res = m(node, st)
+        gu = self.options.get("ghost_updates")
+        if gu and self.in_main and not self.pure_depth:
+            text = ast.unparse(node)
+            fns = gu.get(text)
+            if fns:
+                self._ghost_hits.add(text)
+                con = self.options["contract"]
+                out = []
+                for kind, s2, v in res:
+                    if kind == "normal":
+                        for f in fns:
+                            amap = dict(s2.env)
+                            amap.update({k: x for k, x in s2.ghost.items() if not k.startswith("_")})
+                            upd = self.eval_spec(f, con, amap, s2)
+                            if not isinstance(upd, ConstDict):
+                                raise EngineError("a ghost update must return a dict literal")
+                            s2 = s2.copy()
+                            s2.ghost = dict(s2.ghost)
+                            for gk, gv in upd.entries:
+                                if gk not in s2.ghost:
+                                    raise EngineError("ghost update of undeclared ghost variable %s" % gk)
+                                s2.ghost[gk] = gv
+                    out.append((kind, s2, v))
+                res = out
         ga = self.options.get("ghost_asserts")
         if ga and self.in_main and not self.pure_depth:
-            text = " ".join(self.mod.segment(node).split())
+            text = ast.unparse(node)
             fns = ga.get(text)
             if fns:
                 self._ghost_hits.add(text)
@@ -1720,6 +1810,7 @@ class Engine(object):
                 for kind, s2, v in res:
                     if kind == "normal":
                         amap = dict(s2.env)
+                        amap.update({k2: v2 for k2, v2 in s2.ghost.items() if not k2.startswith("_")})
                         for k2, v2 in s2.ghost.get("__iter__", {}).items():
                             amap["iter_" + k2] = v2
                         for p, v2 in self.options.get("entry", {}).items():
@@ -2176,6 +2267,12 @@ class Engine(object):
             if vn in mod_names and isinstance(st.env.get(vn), ListV) and isinstance(sh, TSeq):
                 items = st.env[vn].items
                 st.env[vn] = seqs.to_seq(st.env[vn], sh.elem) if items else SeqV(0, sh.elem, [z3.K(z3.IntSort(), ops_default(l)) for l in shape_leaves(sh.elem)])
+        if self.options.get("ghost_updates"):
+            st.ghost = dict(st.ghost)
+            for gk, sh0 in self.options.get("ghost_shapes", {}).items():
+                gv0 = st.ghost.get(gk)
+                if isinstance(gv0, ListV) and isinstance(sh0, TSeq):
+                    st.ghost[gk] = seqs.to_seq(gv0, sh0.elem) if gv0.items else SeqV(0, sh0.elem, [z3.K(z3.IntSort(), ops_default(l)) for l in shape_leaves(sh0.elem)])
         pre_vals = {"pre_" + vn: st.env[vn] for vn in mod_names if vn in st.env}
 
         def inv_args(s, k):
@@ -2230,8 +2327,15 @@ class Engine(object):
             h.trace = nv
             facts.extend(f)
         for gk in list(h.ghost):
-            if gk in (spec.__dict__.get("ghost_modified") or ()):
-                nv, f = fresh(shape_of(h.ghost[gk]), gk)
+            if not gk.startswith("_") and self.options.get("ghost_updates"):
+                gv0 = h.ghost[gk]
+                if isinstance(gv0, ListV) and gk in self.options.get("ghost_shapes", {}):
+                    sh0 = self.options["ghost_shapes"][gk]
+                    gv0 = seqs.to_seq(gv0, sh0.elem) if gv0.items else SeqV(0, sh0.elem, [z3.K(z3.IntSort(), ops_default(l)) for l in shape_leaves(sh0.elem)])
+                    s0.ghost = dict(s0.ghost)
+                    s0.ghost[gk] = gv0
+                nv, f = fresh(shape_of(gv0), gk)
+                h.ghost = dict(h.ghost)
                 h.ghost[gk] = nv
                 facts.extend(f)
         bvloop = is_for and (is_bv(n_items) or (isinstance(itv, RangeV) and (is_bv(itv.lo) or is_bv(itv.hi))))
